@@ -129,40 +129,40 @@ Proof.
 Qed.
 
 Lemma index_step_spec d m r p r' :
-  Inv d -> R d m -> rec_at d p = Some r' -> r_key r' = r_key r -> r_value r' = r_value r ->
+  Inv d -> R d m -> rec_at d p = Some r' -> r_key r' = r_key r -> r_value r' = r_value r -> r_type r' = r_type r ->
   Inv (index_step d r p) /\ R (index_step d r p) (rec_apply m r) /\
   (forall q, rec_at (index_step d r p) q = rec_at d q).
 Proof.
-  intros [HF [Hsorted Hres]] HR Hp Hk Hv.
+  intros [HF [Hsorted Hres]] HR Hp Hk Hv Hty.
   destruct (index_step_files d r p) as (F1 & F2 & F3 & F4).
   assert (Hrec : forall q, rec_at (index_step d r p) q = rec_at d q) by (apply rec_at_ext; assumption).
   assert (HF' : InvF (index_step d r p)) by (unfold InvF; rewrite F1, F2, F3; exact HF).
   split; [|split; [|exact Hrec]].
   - split; [exact HF'|]. split; rewrite index_step_index.
     + destruct (r_type r =? rt_Deleted); [apply amap_del_sorted|apply amap_put_sorted]; exact Hsorted.
-    + intros k q Hin. rewrite Hrec. destruct (r_type r =? rt_Deleted).
+    + intros k q Hin. rewrite Hrec. destruct (r_type r =? rt_Deleted) eqn:Ety.
       * apply in_amap_del in Hin. apply Hres. exact Hin.
       * destruct (in_amap_put _ _ _ _ Hin) as [Heq|Hold]; [|apply Hres; exact Hold].
-        injection Heq as -> ->. exists r'. split; assumption.
+        injection Heq as -> ->. exists r'. rewrite Hty. auto.
   - unfold R. rewrite index_step_index. unfold rec_apply.
     assert (HR' : amap_rel (fun q v => val_at (index_step d r p) q = Some v) (d_index d) m).
     { eapply amap_rel_impl; [|exact HR]. intros q x Hq. unfold val_at in *. rewrite Hrec. exact Hq. }
-    destruct (r_type r =? rt_Deleted).
+    destruct (r_type r =? rt_Deleted) eqn:Ety.
     + apply amap_rel_del. exact HR'.
-    + apply amap_rel_put; [exact HR'|]. unfold val_at. rewrite Hrec, Hp, Hv. reflexivity.
+    + apply amap_rel_put; [exact HR'|]. unfold val_at. rewrite Hrec, Hp, Hty, Ety, Hv. reflexivity.
 Qed.
 
 Lemma apply_staged_spec : forall rps d m,
   Inv d -> R d m ->
-  (forall r p, In (r, p) rps -> exists r', rec_at d p = Some r' /\ r_key r' = r_key r /\ r_value r' = r_value r) ->
+  (forall r p, In (r, p) rps -> exists r', rec_at d p = Some r' /\ r_key r' = r_key r /\ r_value r' = r_value r /\ r_type r' = r_type r) ->
   Inv (apply_staged d rps) /\ R (apply_staged d rps) (s_apply_recs m (map fst rps)) /\
   (forall q, rec_at (apply_staged d rps) q = rec_at d q) /\ d_cfg (apply_staged d rps) = d_cfg d.
 Proof.
   induction rps as [|[r p] rps IH]; intros d m HI HR Hall.
   - cbn [apply_staged map s_apply_recs fold_left]. auto.
   - rewrite apply_staged_cons. cbn [map fst s_apply_recs fold_left].
-    destruct (Hall r p (or_introl eq_refl)) as (r' & Hp & Hk & Hv).
-    destruct (index_step_spec d m r p r' HI HR Hp Hk Hv) as (HI1 & HR1 & Hrec1).
+    destruct (Hall r p (or_introl eq_refl)) as (r' & Hp & Hk & Hv & Hty).
+    destruct (index_step_spec d m r p r' HI HR Hp Hk Hv Hty) as (HI1 & HR1 & Hrec1).
     destruct (IH (index_step d r p) (rec_apply m r) HI1 HR1) as (HI2 & HR2 & Hrec2 & Hcfg2).
     + intros r0 p0 Hin. destruct (Hall r0 p0 (or_intror Hin)) as (r0' & H1 & H2). exists r0'. rewrite Hrec1. auto.
     + split; [exact HI2|]. split; [exact HR2|]. split.
